@@ -46,8 +46,8 @@ TOLERATED = {
 class K:
     """canonicaliser of terms across the two flavours"""
 
-    def __init__(self, res=None, body=None, ctx=None):
-        self.res, self.body, self.ctx = res, body, ctx
+    def __init__(self, res=None, body=None, ctx=None, ev=None):
+        self.res, self.body, self.ctx, self.ev = res, body, ctx, ev
         self._busy = set()
 
     def widened(self, x, depth):
@@ -140,6 +140,12 @@ class K:
             return ("kphi?",)
         if tg == "ref" and x[1][0] == "heap":
             return self.place(("heap", x[1][1], x[1][2]), depth + 1)
+        if tg == "ref" and x[1][0] == "loc" and self.ev is not None:
+            # a reference to a local (frame ids are not canonical): what the local holds - a closure handed on by reference is that closure
+            v = self.ev._deref_val(x)
+            if v != x and tag(v) != "undef":
+                kv = self.t(v, depth + 1)
+                return kv if tag(kv) == "closure" else ("ref", kv)
         if tg == "struct":
             nm = re.sub(r"\b(un)?sync::", "", x[1])
             if nm == "SegmentNode" and len(x[2]) == 1:
@@ -190,84 +196,7 @@ class Items(set):
             self.exact.setdefault(it[:-1], []).extend([c | self.cur_extra for c in self.cur])
 
 
-FLIP = {"Eq": "Ne", "Ne": "Eq", "Lt": "Ge", "Ge": "Lt", "Gt": "Le", "Le": "Gt"}
-
-
-def neg_lit(l):
-    if l[0] == "cmp":
-        return ("cmp", FLIP[l[1]], l[2], l[3])
-    if l[0] == "bool":
-        return ("bool", l[1], not l[2])
-    if l[0] == "is":
-        return ("is", l[1], l[2], not l[3])
-    if l[0] == "discr" and l[2][0] == "eq":
-        return ("discr", l[1], ("ne", (l[2][1],)))
-    if l[0] == "discr" and l[2][0] == "ne" and len(l[2][1]) == 1:
-        return ("discr", l[1], ("eq", l[2][1][0]))
-    if l[0] == "not":
-        return l[1]
-    return ("not", l)
-
-
-def conj_unsat(c):
-    """a conjunction of canonical literals is contradictory: complementary boolean literals, incompatible discriminants, or infeasible comparisons"""
-    from order import infeasible
-    c = set(c)
-    for l in c:
-        if neg_lit(l) in c:
-            return True
-    by = {}
-    for l in c:
-        if l[0] == "discr":
-            by.setdefault(repr(l[1]), []).append(l[2])
-    for rels in by.values():
-        eqs = set(r[1] for r in rels if r[0] == "eq")
-        if len(eqs) > 1:
-            return True
-        for r in rels:
-            if r[0] == "ne" and eqs & set(r[1]):
-                return True
-    cmps = [l for l in c if l[0] == "cmp"]
-    try:
-        return bool(cmps) and infeasible(cmps)
-    except Exception:
-        return False
-
-
-def dnf_simplify(d, cap=48):
-    d = [frozenset(c) for c in d]
-    d = [c for c in set(d) if not conj_unsat(c)]
-    changed = True
-    while changed and len(d) <= cap:
-        changed = False
-        d = [c for c in d if not any(o < c for o in d)]       # absorption
-        for i, a in enumerate(d):
-            for b in d[i + 1:]:
-                da, db = a - b, b - a
-                if len(da) == 1 and len(db) == 1 and neg_lit(next(iter(da))) == next(iter(db)):
-                    d = [c for c in d if c not in (a, b)] + [a & b]
-                    changed = True
-                    break
-            if changed:
-                break
-    return d
-
-
-def dnf_implies(A, B, budget=4000):
-    """every disjunct of A implies the disjunction B: a and not B is contradictory (not B = one negated literal from every disjunct of B)"""
-    B = [sorted(b, key=repr) for b in B]
-    n = [0]
-
-    def refute(S, i):
-        n[0] += 1
-        if n[0] > budget:
-            return False
-        if conj_unsat(S):
-            return True
-        if i == len(B):
-            return False
-        return all(refute(S | {neg_lit(l)}, i + 1) for l in B[i])
-    return all(refute(frozenset(a), 0) for a in A)
+from dnf import FLIP, neg_lit, conj_unsat, dnf_simplify, dnf_implies
 
 
 def sync_only_fact(f):
@@ -296,7 +225,7 @@ def found_ourselves(f):
 
 def summarise(ctx, b, flavour):
     ev, res = ctx.eval(b, no_inline=NOINLINE + (r"::alloc_in$", r"::alloc_aligned_bytes_in$", r"Memory::<.*>::clear$", r"get_aligned_pointer_mut$"))
-    k = K(res, b, ctx)
+    k = K(res, b, ctx, ev)
     items = Items()
     removed_blocks = set()
     def project(fs):
@@ -563,6 +492,18 @@ def summarise(ctx, b, flavour):
                 inner = v[3][0] if v[3] else None
                 nm = inner[2] if tag(inner) == "variant" else ("vsum" if tag(inner) == "vsum" else "?")
                 items.add(("ret", "Err", nm, guards))
+            elif tag(v) in ("cmp", "not") and not e["chain"]:
+                # `return a >= b` is `if a >= b { true } else { false }`: one item per truth value, each under the comparison's outcome
+                base = items.cur
+                for val in (1, 0):
+                    fs_v = implied_facts([(v, ("eq", val))])
+                    gv, vinf = project(fs_v)
+                    lv, _ = project_lits(fs_v)
+                    if vinf:
+                        continue
+                    items.cur = None if base is None else [c | frozenset(lv) for c in base]
+                    items.add(("ret", repr(const(val)), tuple(sorted(set(guards) | gv))))
+                items.cur = base
             else:
                 items.add(("ret", repr(k.t(v)), guards))
         elif kind == "call" and e.get("atomic") in ("store",):
@@ -639,13 +580,13 @@ def sib(ctx):
             for sig in sorted(sigs, key=repr):
                 if sig[0] != "write":
                     continue
-                key = ("write", sig[1])
-                if key in done:
+                wkey = ("write", sig[1])
+                if wkey in done:
                     continue
-                ca, cb = ss.cases.get(key), su.cases.get(key)
+                ca, cb = ss.cases.get(wkey), su.cases.get(wkey)
                 if ca is None and cb is None:
                     continue
-                def table(cs, side, key=key):
+                def table(cs, side, key=wkey):
                     # the side without joins: its plain items for this target
                     if cs is None:
                         cs = [(it[2], side.exact.get(it[:-1]) or []) for it in side if it[0] == "write" and it[1] == key[1]]
@@ -657,7 +598,7 @@ def sib(ctx):
                 ta = {v: d for v, d in ta.items() if d}
                 tb = {v: d for v, d in tb.items() if d}
                 if set(ta) == set(tb) and all(dnf_implies(ta[v], tb[v]) and dnf_implies(tb[v], ta[v]) for v in ta):
-                    done.add(key)
+                    done.add(wkey)
             sigs = set(sg for sg in sigs if not (sg[0] == "write" and ("write", sg[1]) in done))
             for sig in sigs:
                 A, B = ss.exact.get(sig), su.exact.get(sig)
